@@ -94,7 +94,7 @@ func weights() map[string]int {
 	for k, v := range ops.DefaultWeights {
 		w[k] = v
 	}
-	for _, k := range []string{"reopen", "tpldoc", "tplstr", "md", "save", "rmpara", "rmparaat", "rmelemat"} {
+	for _, k := range []string{"reopen", "tpldoc", "tpldoc2", "tplstr", "md", "save", "rmpara", "rmparaat", "rmelemat"} {
 		delete(w, k)
 	}
 	return w
